@@ -351,3 +351,12 @@ def main_tail_jobs(Job, cfg=CFG_NDEBUG, tier="quick"):
 
 def c11_jobs(Job, tier):            # noqa: F811
     return write_span_jobs(Job) + listtype_jobs(Job)[1:2] + main_tail_jobs(Job)
+
+
+# ---- gzip reader (C10 ii) ----------------------------------------------------------------------------------------------
+def gz_jobs(Job, cfg=CFG_NDEBUG, tier="quick"):
+    g = ["check_zlib_error_code", "gz_inflate_loop"]
+    return [Job("D_check_zlib_error_code_%s" % cfg[0], "harness/dfs_gz.c", "h_check_zlib", enforce=["check_zlib_error_code"],
+                defines=list(cfg[1]), extract=ext(g), tier=tier),
+            Job("D_gz_inflate_loop_%s" % cfg[0], "harness/dfs_gz.c", "h_gz_loop", enforce=["gz_inflate_loop"], replace=["check_zlib_error_code"],
+                loops=True, defines=list(cfg[1]), extract=ext(g), tier=tier, cover=True, solver="portfolio")]
